@@ -8,7 +8,7 @@ from . import e2e, e2etags, geomgen as G, topo2
 
 ID = "C10"
 LEVEL = "proof"
-LEAN_MODULES = ["DracoProps.C10"]
+LEAN_MODULES = ["DracoProps.C10", "DracoProps.C10Kd"]
 RULE = ("(a) generated point clouds and meshes with quantized float positions / generic / tex-coord / colour attributes, "
         "octahedral normals and integer attributes, encoded with every method (sequential, kd-tree, Edgebreaker standard / "
         "valence, speeds 0..10, Encoder and ExpertEncoder API) and decoded with SetSkipAttributeTransform for EVERY "
@@ -296,7 +296,39 @@ def generate(rng, tier):
     for name, bs in WITNESSES.items():
         for S in ({0}, {1}, {0, 1, 2, 3, 4}):
             cases.append(stream_case(bytes(bs).hex(), S, "theorem witness " + name, ("given:theorem-witness", "given:" + name)))
+    cases += apply_cases(cases)
     return cases
+
+
+def apply_oracle(hout, case):
+    """the consumer side on the real classes: InitFromAttribute + InverseTransformAttribute (one reused transform object
+    per kind) on every skipped attribute must reproduce the ordinary decode bit for bit"""
+    if hout.startswith(("mismatch", "no-such-attribute", "transform-failed")):
+        return ("skip-apply:" + hout.split()[0],
+                f"applying the described transform to the skipped attribute does not reproduce the ordinary decode: {hout} for `{case.op[:300]}`")
+    return None
+
+
+def apply_cases(cases):
+    """for every generated / given stream case of this run one `skipapply` case with the same skip set"""
+    out = []
+    seen = set()
+    for c in cases:
+        op = c.op
+        if op.startswith("encdec "):
+            head, gt = op.split(" -- ", 1)
+            toks = [t for t in head.split()[1:] if not t.startswith("trail=")]
+            line = "encskipapply " + " ".join(toks) + " -- " + gt
+        elif op.startswith("decskip "):
+            t = op.split()
+            line = f"skipapply {t[1]} {t[2]}"
+        else:
+            continue
+        if line in seen:
+            continue
+        seen.add(line)
+        out.append(Case(line, model=False, oracle=apply_oracle, tags=("skip-apply-real-transform",)))
+    return out
 
 
 WITNESSES = {
@@ -316,6 +348,8 @@ def replay_cases(lines):
             S = {int(ch) for ch in sk[0][5:] if ch.isdigit()} if sk else set()
             info = e2ereplay.info_from_tokens(l.split(" -- ")[0].split()[1:], G.parse_geom(l.split(" -- ", 1)[1].split())[0])
             out.append(attach(c, S, info["req"]))
+        elif l.startswith(("skipapply ", "encskipapply ")):
+            out.append(Case(l, model=False, oracle=apply_oracle))
         elif l.startswith("decskip "):
             t = l.split()
             out.append(stream_case(t[2], {int(ch) for ch in t[1] if ch.isdigit()}, "replayed stream", ()))
